@@ -948,6 +948,9 @@ impl Server {
             let result = self.connections.with_connection(*id, |conn| -> Result<bool> {
                 match conn.flush() {
                     Ok(_) => Ok(conn.has_pending_writes()),
+                    // The client is just slower than we write: the rest of the reply
+                    // stays queued for the next round
+                    Err(FerrousError::Connection(ref msg)) if msg.contains("would block") => Ok(true),
                     Err(e) if matches!(e, FerrousError::Connection(_)) => {
                         // Connection error - mark for closing
                         conn.state = ConnectionState::Closing;
